@@ -23,6 +23,10 @@ type Profile struct {
 	FaultPct     int // % of flows whose first honest exchange runs while one storage method fails
 	DropPct      int // % of flows during which the client's refresh grant registration is withdrawn
 	HintPct      int // % of flows whose authorization request carries an id_token_hint
+	ROPct        int // % of flows whose authorization request carries a signed Request Object
+	KeepPct      int // % of histories over a storage that does not rotate refresh tokens
+	TwinPct      int // % of flows that run two authorization requests and redeem the second code with omissions right after the first
+	OmitPct      int // % of refresh steps followed at once by the same request with something omitted
 }
 
 var places = []string{"query", "grant-query", "grant-conflict", "field-conflict"}
@@ -86,6 +90,22 @@ type flow struct {
 	hintSub  string
 	prompt   []string
 	maxAge   string
+	// what the query of the authorization request says (the fields above are what the request
+	// asks for once the Request Object has superseded the query) and the Request Object
+	qURI     string
+	qScopes  []string
+	qNonce   string
+	qMethod  string
+	qChal    string
+	noMethod bool
+	ro       string
+	roURI    string
+	roScopes []string
+	roNonce  string
+	roChal   string
+	roMethod string
+	held     int // twin flows: the code of the first authorization request, kept for later
+	long     bool
 }
 
 type History struct {
@@ -112,6 +132,67 @@ func (g *gen) newVerifier() string {
 	v := fmt.Sprintf("verifier-%02d-%x", g.nver, g.r.Bytes(20))
 	g.w.Vers[v] = true
 	return v
+}
+
+// longVerifier: well beyond 1 KiB (nothing in the library may depend on the size of a verifier)
+func (g *gen) longVerifier() string {
+	g.nver++
+	v := fmt.Sprintf("verifier-%02d-%x", g.nver, g.r.Bytes(600))
+	g.w.Vers[v] = true
+	return v
+}
+
+// nearVerifier: a verifier a sloppy comparison might take for v
+func (g *gen) nearVerifier(v string) string {
+	var x string
+	switch g.r.IntN(8) {
+	case 0:
+		x = strings.ToUpper(v)
+	case 1:
+		x = v + " "
+	case 2:
+		x = " " + v
+	case 3:
+		x = v + "="
+	case 4:
+		x = v[:len(v)-1]
+	case 5: // differs in the very last character only
+		c := byte('0')
+		if v[len(v)-1] == '0' {
+			c = '1'
+		}
+		x = v[:len(v)-1] + string(c)
+	case 6:
+		x = drv.Pick(g.r, []string{"null", "undefined", "nil", "true", "0", "[]", "{}"})
+	default:
+		x = v + "\n"
+	}
+	g.w.Vers[x] = true
+	return x
+}
+
+// omitted: the honest credential of c with something left out. Proves nothing - except for a
+// public client, whose id alone is what it has to present.
+func (g *gen) omitted(c ClientInfo) (Cred, string) {
+	switch c.Auth {
+	case "none":
+		return Cred{Kind: "none"}, "omit-client-id"
+	case "pkjwt":
+		if g.r.Bool() {
+			return Cred{Kind: "post", ID: c.ID}, "omit-assertion"
+		}
+		return Cred{Kind: "none"}, "omit-credentials"
+	}
+	switch g.r.IntN(5) {
+	case 0, 1:
+		return Cred{Kind: "none"}, "omit-credentials"
+	case 2:
+		return Cred{Kind: "post", ID: c.ID}, "omit-secret"
+	case 3:
+		return Cred{Kind: "post", Sec: c.Secret}, "omit-client-id"
+	default:
+		return Cred{Kind: "basic", ID: c.ID}, "omit-secret-basic"
+	}
 }
 
 func (g *gen) client(id string) ClientInfo {
@@ -201,7 +282,12 @@ func (g *gen) badCred(c ClientInfo) (Cred, string) {
 		return legitCred(g.r, o), "cross-client"
 	case 4:
 		if c.Auth == "basic" || c.Auth == "post" {
-			return Cred{Kind: drv.Pick(g.r, []string{"basic", "post"}), ID: c.ID, Sec: c.Secret + "x"}, "wrong-secret"
+			if g.r.Chance(1, 4) { // the right secret under a look-alike id
+				return Cred{Kind: drv.Pick(g.r, []string{"basic", "post"}), Sec: c.Secret,
+					ID: drv.Pick(g.r, []string{strings.ToUpper(c.ID), c.ID + " ", " " + c.ID, c.ID + "/", strings.ToUpper(c.ID[:1]) + c.ID[1:]})}, "near-miss-client-id"
+			}
+			sec := drv.Pick(g.r, []string{c.Secret + "x", strings.ToUpper(c.Secret), c.Secret + " ", " " + c.Secret, c.Secret[:len(c.Secret)-1], "null", "undefined", "true"})
+			return Cred{Kind: drv.Pick(g.r, []string{"basic", "post"}), ID: c.ID, Sec: sec}, "wrong-secret"
 		}
 		return Cred{Kind: "post", ID: c.ID + "x"}, "unknown-client"
 	case 5:
@@ -302,17 +388,29 @@ func (g *gen) newFlow(routerMode int) *flow {
 	}
 	if f.method != "" {
 		f.verifier = g.newVerifier()
+		if g.r.Chance(1, 12) {
+			f.verifier, f.long = g.longVerifier(), true
+			g.tag("verifier=long")
+		}
 		f.chal = f.verifier
 		if f.method == "S256" {
 			f.chal = opfix.S256(f.verifier)
 		}
 	}
+	g.requestObject(f)
 	f.sub = drv.Pick(g.r, []string{"alice", "bob"})
+	if g.r.Chance(1, 10) { // a subject with the separator of the opaque access token in it
+		f.sub = "team:carol"
+		g.tag("subject=with-colon")
+	}
 	g.tag("client=" + f.cl.ID)
 	if f.method == "" {
 		g.tag("chal=none")
 	} else {
 		g.tag("chal=" + f.method)
+	}
+	if f.noMethod {
+		g.tag("chal=plain-by-default")
 	}
 
 	if g.r.Chance(g.p.HintPct, 100) {
@@ -374,6 +472,9 @@ func (g *gen) newFlow(routerMode int) *flow {
 	if g.r.Chance(1, 5) || (strings.HasPrefix(f.uri, "http://127.") && g.r.Bool()) {
 		plan = append(plan, "code-nearmiss") // everything right except a look-alike redirect_uri
 	}
+	if f.ro == "ok" && f.method != "" && g.r.Chance(3, 4) {
+		plan = append(plan, "code-pkce") // the PKCE parameters travelled (partly) in the Request Object: they are in force
+	}
 	if g.r.Chance(g.p.FaultPct, 100) {
 		plan = append(plan, "code-fault") // the honest "code" step that follows presents the same code again
 		if g.r.Chance(1, 4) {
@@ -403,6 +504,10 @@ func (g *gen) newFlow(routerMode int) *flow {
 				continue
 			}
 		}
+		if g.r.Chance(g.p.OmitPct, 100) {
+			plan = append(plan, "refresh-then-omit")
+			continue
+		}
 		plan = append(plan, "refresh")
 	}
 	if nref > 0 && g.r.Chance(2, 5) {
@@ -411,6 +516,19 @@ func (g *gen) newFlow(routerMode int) *flow {
 	if nref > 0 && g.r.Chance(1, 3) {
 		// another, correctly authenticated client presents this flow's token (refused), then the owner
 		plan = append(plan, "refresh-foreign", "refresh-verify")
+	}
+	if mk == -1 && (f.ro == "" || f.ro == "ok") && len(f.prompt) == 0 && f.hint == "" && g.r.Chance(g.p.TwinPct, 100) {
+		// two authorization requests of the same client with the same parameters; the second code is
+		// redeemed first, and AT ONCE the first code is presented with something omitted
+		var tail []string
+		for i, x := range plan {
+			if strings.HasPrefix(x, "refresh") || x == "drop-refresh" {
+				tail = plan[i:]
+				break
+			}
+		}
+		plan = append([]string{"authorize", "login", "callback", "hold", "authorize", "login", "callback", "code-then-omit", "code-held"}, tail...)
+		g.tag("flow=twin")
 	}
 	if g.r.Chance(g.p.DropPct, 100) {
 		// the registration loses the refresh grant while the client may hold a refresh token
@@ -532,7 +650,8 @@ func (g *gen) step(f *flow) {
 	f.plan = f.plan[1:]
 	switch kind {
 	case "authorize":
-		out := g.do(Op{Router: g.rt(f), Kind: "authorize", Client: f.cl.ID, URI: f.uri, Scopes: f.scopes, Nonce: f.nonce, Method: f.method, Chal: f.chal,
+		out := g.do(Op{Router: g.rt(f), Kind: "authorize", Client: f.cl.ID, URI: f.qURI, Scopes: f.qScopes, Nonce: f.qNonce, Method: f.qMethod, Chal: f.qChal,
+			NoMethod: f.noMethod, RO: f.ro, ROURI: f.roURI, ROScopes: f.roScopes, RONonce: f.roNonce, ROChal: f.roChal, ROMethod: f.roMethod,
 			Hint: f.hint, HintSub: f.hintSub, Prompt: f.prompt, MaxAge: f.maxAge})
 		f.req = out.Req
 	case "bad-authorize": // no request must come out of these
@@ -550,7 +669,7 @@ func (g *gen) step(f *flow) {
 		g.stamp++
 		sub := f.sub
 		if kind == "relogin" {
-			sub = map[string]string{"alice": "bob", "bob": "alice"}[sub]
+			sub = map[string]string{"alice": "bob", "bob": "alice", "team:carol": "alice"}[sub]
 		}
 		req := f.req
 		if req == 0 {
@@ -572,6 +691,21 @@ func (g *gen) step(f *flow) {
 	case "code-nearmiss":
 		o := g.honestCode(f)
 		o.URI, o.Mut = nearMiss(g.r, f.uri), "near-miss-uri"
+		g.settle(f, o, g.do(o))
+	case "code-pkce":
+		o := g.honestCode(f)
+		switch g.r.IntN(4) {
+		case 0, 1:
+			o.Ver, o.Mut = "", "missing-verifier"
+		case 2:
+			o.Ver, o.Mut = g.newVerifier(), "wrong-verifier"
+			if f.qChal != "" && f.qChal != f.chal && g.r.Bool() {
+				o.Ver = f.qChal // what the superseded query parameter asked for
+				g.w.Vers[o.Ver] = true
+			}
+		default:
+			o.Ver, o.Mut = g.nearVerifier(f.verifier), "near-miss-verifier"
+		}
 		g.settle(f, o, g.do(o))
 	case "code-fault":
 		o := g.honestCode(f)
@@ -621,9 +755,11 @@ func (g *gen) step(f *flow) {
 			o.Ver, o.Mut = "", "missing-verifier"
 		case 6:
 			o.Ver, o.Mut = g.newVerifier(), "wrong-verifier"
-			if f.method == "S256" && g.r.Bool() {
+			if f.method == "S256" && g.r.Chance(1, 3) {
 				o.Ver = f.chal // the challenge itself
 				g.w.Vers[o.Ver] = true
+			} else if f.method != "" && (g.r.Bool() || f.long) {
+				o.Ver, o.Mut = g.nearVerifier(f.verifier), "near-miss-verifier"
 			}
 		case 7:
 			o.URI, o.Mut = "", "missing-uri"
@@ -657,6 +793,72 @@ func (g *gen) step(f *flow) {
 			o.Mut = "bad-cred-and-no-verifier"
 		}
 		g.settle(f, o, g.do(o))
+	case "hold":
+		f.held = last(f.codes)
+	case "code-then-omit":
+		o := g.honestCode(f)
+		out := g.do(o)
+		g.settle(f, o, out)
+		if out.Tokens == nil || f.held == 0 {
+			return
+		}
+		// the same router served the same client a moment ago; this request must stand on its own
+		o2 := g.honestCode(f)
+		o2.Router, o2.Code = o.Router, f.held
+		switch k := g.r.IntN(11); {
+		case k < 4:
+			o2.Cred, o2.Mut = g.omitted(f.cl)
+		case k < 6 && f.method != "":
+			o2.Ver, o2.Mut = "", "omit-verifier"
+		case k < 7:
+			o2.URI, o2.Mut = "", "omit-redirect-uri"
+		case k < 8 && f.method != "": // the same challenge was verified a moment ago - with another verifier
+			o2.Ver, o2.Mut = g.nearVerifier(f.verifier), "wrong-verifier-after-success"
+		case k < 9 && (f.cl.Auth == "basic" || f.cl.Auth == "post"): // the same client authenticated a moment ago
+			o2.Cred, o2.Mut = Cred{Kind: drv.Pick(g.r, []string{"basic", "post"}), ID: f.cl.ID, Sec: f.cl.Secret + "x"}, "wrong-secret-after-success"
+		case k < 10:
+			o2.URI, o2.Mut = nearMiss(g.r, f.uri), "near-miss-uri-after-success"
+		default:
+			o2.Cred, _ = g.omitted(f.cl)
+			o2.Ver, o2.URI, o2.Mut = "", "", "omit-everything"
+		}
+		if g.r.Bool() {
+			o2.Place = o.Place
+		}
+		g.settle(f, o2, g.do(o2))
+	case "code-held":
+		o := g.honestCode(f)
+		if f.held != 0 {
+			o.Code = f.held
+		}
+		g.settle(f, o, g.do(o))
+	case "refresh-then-omit":
+		if last(f.rts) == 0 {
+			return
+		}
+		o := g.honestRefresh(f)
+		out := g.do(o)
+		g.settle(f, o, out)
+		if out.Tokens == nil {
+			return
+		}
+		o2 := g.honestRefresh(f) // presents the token just obtained
+		o2.Router = o.Router
+		switch k := g.r.IntN(8); {
+		case k == 0:
+			o2.RT, o2.Mut = 0, "omit-refresh-token"
+		case k == 1 && (f.cl.Auth == "basic" || f.cl.Auth == "post"): // the same client authenticated a moment ago
+			o2.Cred, o2.Mut = Cred{Kind: drv.Pick(g.r, []string{"basic", "post"}), ID: f.cl.ID, Sec: f.cl.Secret + "x"}, "wrong-secret-after-success"
+		default:
+			o2.Cred, o2.Mut = g.omitted(f.cl)
+		}
+		if g.r.Bool() {
+			o2.Scopes = nil
+		}
+		if g.r.Bool() {
+			o2.Place = o.Place
+		}
+		g.settle(f, o2, g.do(o2))
 	case "refresh":
 		if last(f.rts) == 0 && !g.r.Chance(1, 5) {
 			return // nothing to refresh (no offline_access, or the exchange failed)
@@ -712,6 +914,11 @@ func (g *gen) step(f *flow) {
 			extra := notIn(f.granted)
 			o.Scopes = append(subsetOf(g.r, f.granted), drv.Pick(g.r, extra))
 			o.Mut = "scope-superset"
+			if len(f.granted) > 0 && g.r.Chance(1, 3) { // a granted value in another spelling is not a granted value
+				v := drv.Pick(g.r, f.granted)
+				o.Scopes[len(o.Scopes)-1] = drv.Pick(g.r, []string{strings.ToUpper(v), strings.ToUpper(v[:1]) + v[1:], v + "/", v + "%20"})
+				o.Mut = "scope-near-miss"
+			}
 			if g.r.Bool() { // the foreign scope first
 				o.Scopes[0], o.Scopes[len(o.Scopes)-1] = o.Scopes[len(o.Scopes)-1], o.Scopes[0]
 			}
@@ -755,6 +962,8 @@ func Generate(r drv.Rand, p Profile) (*History, error) {
 	var o Options
 	o.NoRefresh = r.Chance(p.RefreshOff, 100)
 	o.LiveGrants = r.Chance(2, 3)
+	o.KeepRT = r.Chance(p.KeepPct, 100)
+	o.NoReqObj = r.Chance(1, 16)
 	o.NoPost = r.Chance(1, 16)
 	o.NoPKJWT = r.Chance(1, 16)
 	ids := []string{"web", "web2", "native", "spa", "pkjwt"}
@@ -775,6 +984,14 @@ func Generate(r drv.Rand, p Profile) (*History, error) {
 	}
 	if o.LiveGrants {
 		g.tag("grants=live")
+	}
+	if o.KeepRT {
+		g.tag("storage=keeps-refresh-token")
+	} else {
+		g.tag("storage=rotates")
+	}
+	if o.NoReqObj {
+		g.tag("reqobj=off")
 	}
 	if o.NoPost {
 		g.tag("post=off")
@@ -824,7 +1041,9 @@ func (h *History) Case() emit.Case {
 		outs[i] = h.Outs[i].Coq
 		o := h.Ops[i]
 		human = append(human, map[string]any{"router": o.Router.String(), "op": o.Kind, "mut": o.Mut, "client": o.Client, "cred": o.Cred,
-			"req": o.Req, "code": o.Code, "rt": o.RT, "uri": o.URI, "ver": o.Ver, "scopes": o.Scopes, "answer": h.Outs[i].Human})
+			"req": o.Req, "code": o.Code, "rt": o.RT, "uri": o.URI, "ver": short(o.Ver), "scopes": o.Scopes, "answer": h.Outs[i].Human,
+			"place": o.Place, "chal": o.Method + ":" + short(o.Chal), "no_method": o.NoMethod,
+			"request_object": map[string]any{"kind": o.RO, "redirect_uri": o.ROURI, "scope": o.ROScopes, "nonce": o.RONonce, "code_challenge": short(o.ROChal), "code_challenge_method": o.ROMethod}})
 	}
 	in := emit.Ctor("MkIn", h.W.CfgCoq(), h.W.HashTableCoq(), emit.List(ops))
 	var tags []string
@@ -833,4 +1052,91 @@ func (h *History) Case() emit.Case {
 	}
 	sort.Strings(tags)
 	return emit.Case{Input: in, Observed: emit.Ctor("Obs", emit.List(outs)), Tags: tags, Human: human}
+}
+
+func short(v string) string {
+	if len(v) > 80 {
+		return fmt.Sprintf("%s...(%d bytes)", v[:60], len(v))
+	}
+	return v
+}
+
+// requestObject decides where the parameters of f's authorization request travel: the query, a
+// signed Request Object, or both with the object superseding the query member by member. The
+// fields f.uri / scopes / nonce / method / chal stay what the request asks for in the end.
+func (g *gen) requestObject(f *flow) {
+	f.qURI, f.qScopes, f.qNonce, f.qMethod, f.qChal = f.uri, f.scopes, f.nonce, f.method, f.chal
+	plain := func() { // the request's challenge becomes a plain one
+		f.method, f.chal = "plain", f.verifier
+		f.qMethod, f.qChal = f.method, f.chal
+	}
+	if !g.r.Chance(g.p.ROPct, 100) {
+		if f.method != "" && g.r.Chance(1, 8) { // code_challenge without method in the query: plain
+			plain()
+			f.noMethod = true
+		}
+		return
+	}
+	f.ro = "ok"
+	if g.r.Chance(1, 8) {
+		f.ro = drv.Pick(g.r, RODefects) // no request comes out of it
+	}
+	g.tag("request_object=" + f.ro)
+	via := "none"
+	if f.method != "" {
+		switch g.r.IntN(8) {
+		case 0, 1: // challenge and method in the object only
+			via = "object"
+			f.roChal, f.roMethod, f.qMethod, f.qChal = f.chal, f.method, "", ""
+		case 2, 3: // challenge in the object only, no method anywhere: plain
+			via = "object-no-method"
+			plain()
+			f.roChal, f.qMethod, f.qChal = f.chal, "", ""
+		case 4: // the query carries another challenge; the object supersedes both members
+			via = "object-over-query"
+			d := g.newVerifier()
+			f.roChal, f.roMethod = f.chal, f.method
+			f.qMethod, f.qChal = drv.Pick(g.r, []string{"plain", "S256"}), d
+			if f.qMethod == "S256" {
+				f.qChal = opfix.S256(d)
+			}
+		case 5: // challenge from the object, method from the query
+			via = "object-challenge-query-method"
+			d := g.newVerifier()
+			f.roChal, f.qChal = f.chal, d
+		case 6: // method from the object, challenge from the query
+			via = "object-method-query-challenge"
+			f.roMethod = f.method
+			f.qMethod = map[string]string{"plain": "S256", "S256": "plain"}[f.method]
+		default: // the object says nothing about PKCE
+			via = "query"
+		}
+	} else if g.r.Chance(1, 4) { // a method without any challenge is no challenge
+		via = "method-only"
+		f.roMethod = drv.Pick(g.r, []string{"plain", "S256"})
+	}
+	g.tag("pkce_via=" + via)
+	if f.nonce != "" && g.r.Bool() {
+		f.roNonce = f.nonce
+		f.qNonce = drv.Pick(g.r, []string{"", "query-" + f.nonce})
+		g.tag("ro_member=nonce")
+	}
+	if g.r.Chance(1, 4) {
+		f.roURI = f.uri
+		f.qURI = drv.Pick(g.r, []string{"", "https://decoy.example.com/cb", f.uri})
+		g.tag("ro_member=redirect_uri")
+	}
+	openid := false
+	for _, sc := range f.scopes {
+		openid = openid || sc == "openid"
+	}
+	switch {
+	case g.r.Chance(1, 4): // the object's scope supersedes that of an OpenID request
+		f.roScopes = f.scopes
+		f.qScopes = drv.Pick(g.r, [][]string{{"openid"}, {"openid", "phone"}, {"phone", "openid", "address"}})
+		g.tag("ro_member=scope")
+	case !openid && g.r.Bool(): // not an OpenID request: the object's scope does not count
+		f.roScopes = []string{"openid", "email", "offline_access"}
+		g.tag("ro_member=scope-ignored")
+	}
 }
